@@ -31,7 +31,12 @@ class C41(core.Prop):
         big = tier == "thorough"
         prog = syncgen.programs(kinds=("mutex", "sem", "cond", "barrier", "mailbox", "random", "assert", "tick"), max_actors=3,
                                 max_ops=8 if big else 6, mc=True, max_mutex=2, max_sem=1, max_cond=1, max_bar=1, profile="contention")
-        return st.tuples(prog, st.sampled_from(REDUCTIONS + ["none"])).map(lambda t: {"program": t[0], "reduction": t[1]})
+        # programs centred on multi-valued transitions (MC_random) and assertions on their values: counter-example paths that mix
+        # default and non-default choices ("2/1;2;1"), which the path printer / parser must carry faithfully
+        rnd = syncgen.programs(kinds=("random", "random", "assert", "mutex", "tick"), max_actors=2, max_ops=5, mc=True, max_mutex=1,
+                               profile="contention")
+        return st.tuples(st.one_of(prog, prog, rnd), st.sampled_from(REDUCTIONS + ["none"])).map(
+            lambda t: {"program": t[0], "reduction": t[1]})
 
     def check(self, case):
         oc = core.Outcome()
